@@ -41,12 +41,12 @@ Definition uses_imm (c : runcase) : bool := negb (forallb negb (rc_imm c)).
    programs whose unfolding consists of services, task calls (non-empty bodies), Parallel
    statements, Conditions (non-empty Passed block, with or without a Failed block) and While
    loops (non-empty bodies), arbitrarily nested, within the generator's recursion budget; and
-   sequential counting loops (non-empty bodies, any limit) that stand in the production task
-   itself (at any depth of Conditions / While loops / counting loops, but not inside a called
-   task), provided that no parameter list of the program mentions a loop index
+   sequential counting loops (non-empty bodies, any limit) at any depth of Conditions / While
+   loops / counting loops / task calls (every task instance has its own loop counters),
+   provided that no parameter list of the program mentions a loop index
    ([Abs.sok]: with [NC] = "the program has no counting loop" nothing is required of the
-   parameters).  Not in the fragment: counting loops inside called tasks, loop indices in
-   parameters of programs with counting loops, parallel loops *)
+   parameters).  Not in the fragment: loop indices in parameters of programs with counting
+   loops, parallel loops *)
 Definition in_fragment (c : runcase) : bool :=
   rc_test_ids c
   && forallb (fun o => match o with None => true | Some _ => false end) (rc_react c)
@@ -101,6 +101,6 @@ Proof.
   destruct (script_sim (no_count body) (p_tasks (rc_prog c)) (env_of c) Henv (orc_of (rc_vals c)) (imm_of (rc_imm c))
                        (fun k => eq_refl) (uses_imm c) Himm' eq_refl
                        body N HN Hfrag Hsok default_fuel (rc_script c) sched0 N tr Hscript
-                       (Rel_init (no_count body) (uses_imm c) body N HN) Href) as [f0 Hf0].
+                       (Rel_init (no_count body) (uses_imm c) body N HN Hfrag) Href) as [f0 Hf0].
   exists f0. intros f Hf. unfold run_net_f. rewrite Hin, Hinit. cbn [rbind]. apply Hf0. exact Hf.
 Qed.
